@@ -15,9 +15,10 @@ def sh(cmd, cwd=None, env=None, timeout=3600):
 
 def main():
     out = {}
-    for pid in sys.argv[1:]:
+    for spec in sys.argv[1:]:
+        pid, _, only = spec.partition(":")
         wt = f"/tmp/wt/{pid}"
-        for m in "AB":
+        for m in (only or "AB"):
             diff = f"{wt}/_seed/mutant{m}.diff"
             demo = f"{wt}/_seed/demo{m}.py"
             if not os.path.exists(diff):
